@@ -801,7 +801,8 @@ class BGP(protocol.Protocol):
                     del value14['nlri']
                     key = "{"
                     for k in sorted(prefix.keys()):
-                        key += '"' + k + '"'
+                        # the decoder gives the flowspec component types as integers
+                        key += '"' + str(k) + '"'
                         key += ':'
                         key += '"' + str(prefix[k]) + '"'
                         key += ','
@@ -851,7 +852,8 @@ class BGP(protocol.Protocol):
                 for prefix in attr[15]['withdraw']:
                     key = "{"
                     for k in sorted(prefix.keys()):
-                        key += '"' + k + '"'
+                        # the decoder gives the flowspec component types as integers
+                        key += '"' + str(k) + '"'
                         key += ':'
                         key += '"' + str(prefix[k]) + '"'
                         key += ','
